@@ -252,7 +252,9 @@ def compare(case, got, exp):
     for t, (n, box) in exp["size"].items():
         g = got["size"][t]
         if g == "ERR":
-            if box:
+            # the property speaks of the projection of ONE iteration space; when the data space is the intersection of several canonical
+            # Einsums' images an explicit error is accepted even if the intersection happens to be a box (never a wrong size)
+            if box and len(canonical(case, t)) == 1:
                 bad.append(f"tensor {t}: image is a box of {n} points but an error was raised")
         elif g != n:
             bad.append(f"tensor {t}: size {g} != {n} projected points (box={box})")
